@@ -237,6 +237,25 @@ def run(ctx):
         documents.append("import qmluic.QtWidgets\nQWidget { QVBoxLayout { " + tmpl + " } }\n")
         nun += 1
     ctx.dist("doc-statement-free-bodies", nun)
+    # every place where the translator itself computes with an integer it has read (grid flow counts, cell indices, spans, stretches, minimum sizes, spacing, margins,
+    # sizes): zero, one, negative, and the 16-/32-/64-bit edges, with children present so that the arithmetic on the value actually runs (x % columns, index + span, `as usize`)
+    nedge = 0
+    ivals = ["0", "1", "-1", "2", "65535", "65536", "2147483647", "2147483648", "-2147483648", "4294967295", "4294967296", "9223372036854775807", "(-9223372036854775807 - 1)"]
+    kids3 = "QLabel { } QLabel { } QLabel { }"
+    for v in ivals:
+        for tmpl in ("QWidget { QGridLayout { columns: %s; " + kids3 + " } }", "QWidget { QGridLayout { rows: %s; " + kids3 + " } }",
+                     "QWidget { QGridLayout { flow: QGridLayout.TopToBottom; rows: %s; " + kids3 + " } }", "QWidget { QGridLayout { flow: QGridLayout.TopToBottom; columns: %s; " + kids3 + " } }",
+                     "QWidget { QGridLayout { rows: %s; columns: 2; " + kids3 + " } }", "QWidget { QFormLayout { QLabel { QLayout.row: %s } QLabel { } QLabel { } } }",
+                     "QWidget { QGridLayout { QLabel { QLayout.row: %s } QLabel { } QLabel { QLayout.column: %s } QLabel { } } }",
+                     "QWidget { QGridLayout { columns: 2; QLabel { QLayout.columnSpan: %s } QLabel { QLayout.rowSpan: %s } QLabel { } } }",
+                     "QWidget { QGridLayout { QLabel { QLayout.row: 1; QLayout.column: 1; QLayout.rowStretch: %s; QLayout.columnMinimumWidth: %s } QLabel { } } }",
+                     "QWidget { QVBoxLayout { QLabel { QLayout.rowStretch: %s } QLabel { QLayout.columnStretch: %s } } }",
+                     "QWidget { QHBoxLayout { spacing: %s; contentsMargins.left: %s; QLabel { } } }", "QWidget { QVBoxLayout { QSpacerItem { sizeHint.width: %s; sizeHint.height: %s } } }",
+                     "QWidget { geometry.x: %s; geometry.width: %s; minimumSize.width: %s }", "QTabWidget { currentIndex: %s; QWidget { } }",
+                     "QWidget { QGridLayout { columns: %s; QLabel { QLayout.column: %s } QLabel { } } }"):
+            documents.append("import qmluic.QtWidgets\n" + tmpl.replace("%s", v) + "\n")
+            nedge += 1
+    ctx.dist("doc-integer-places-at-the-edges", nedge)
     if ctx.replay and isinstance(ctx.replay.get("case"), str):
         documents = [ctx.replay["case"]]
     ctx.dist("doc-corpus", len(base)); ctx.dist("doc-mutant", len(base) * nmut); ctx.dist("doc-soup", 400 if ctx.tier == "thorough" else 60)
